@@ -228,6 +228,47 @@ theorem convertUnitary_refused (cast : DType → κ → κ) (dd : Bool) (h : Hea
   | ragged => exact ⟨.ValueError, by simp [convertUnitary, hbx, torchTensor, srcDType, bind, Except.bind]⟩
   | nonArray => exact ⟨.TypeError, by simp [convertUnitary, hbx, torchTensor, srcDType, bind, Except.bind]⟩
 
+/-! ### `fit`'s data conversion -/
+
+theorem fitConvertData_spec (cast : DType → κ → κ) (hc : ∀ v, cast .float64 v = v) (dd : Bool) {h : Heap κ} {o : Obj} {src : DType}
+    (hsrc : srcDType o.box = some src) {v : κ} (hv : h.read o.sid = some v) :
+    ∃ h' t', fitConvertData cast dd h o = .ok (h', t') ∧ Fresh h h' t' v ∧ t'.dt = .float64 := by
+  by_cases hb : ∃ dt, o.box = .tensor dt
+  · obtain ⟨dt, hb⟩ := hb
+    obtain ⟨h1, t1, e1, f1, d1, p1⟩ := cloneDetach_spec (List.prefix_refl h.cells) (t := ⟨o.sid, dt⟩) hv
+    obtain ⟨h2, t2, e2, f2, d2, p2⟩ := toDType_spec cast f1 .float64
+    refine ⟨h2, t2, by simp [fitConvertData, hb, e1, e2, bind, Except.bind], ?_, d2⟩
+    by_cases hd : t1.dt = DType.float64
+    · simpa [hd] using f2
+    · simpa [hd, hc] using f2
+  · have hinf : ∃ inf, inferDType dd o.box = some inf := by
+      cases hbx : o.box with
+      | pyList e => cases e <;> simp [inferDType, srcDType]
+      | ragged => simp [hbx, srcDType] at hsrc
+      | nonArray => simp [hbx, srcDType] at hsrc
+      | tensor d => exact absurd ⟨d, hbx⟩ hb
+      | ndarray d => simp [inferDType, srcDType]
+    obtain ⟨inf, hinf⟩ := hinf
+    obtain ⟨h1, t1, e1, f1, d1, p1⟩ := torchTensor_spec cast dd (List.prefix_refl h.cells) hsrc hinf hv (some .float64)
+    have hcu : fitConvertData cast dd h o = .ok (h1, t1) := by
+      cases hbx : o.box with
+      | tensor d => exact absurd ⟨d, hbx⟩ hb
+      | _ => simp [fitConvertData, hbx] at e1 ⊢; simp [e1]
+    refine ⟨h1, t1, hcu, ?_, by simpa using d1⟩
+    simp only [Option.getD_some, convTo] at f1
+    by_cases hs : src = DType.float64
+    · simpa [hs] using f1
+    · simpa [hs, hc] using f1
+
+theorem fitConvertData_refused (cast : DType → κ → κ) (dd : Bool) (h : Heap κ) (o : Obj) (hb : srcDType o.box = none) :
+    ∃ e, fitConvertData cast dd h o = .error e := by
+  cases hbx : o.box with
+  | tensor d => simp [hbx, srcDType] at hb
+  | ndarray d => simp [hbx, srcDType] at hb
+  | pyList e => cases e <;> simp [hbx, srcDType] at hb
+  | ragged => exact ⟨.ValueError, by simp [fitConvertData, hbx, torchTensor, srcDType]⟩
+  | nonArray => exact ⟨.TypeError, by simp [fitConvertData, hbx, torchTensor, srcDType]⟩
+
 /-! ### `vector_to_grads` -/
 
 theorem assignLoop_ok {α : Type} (vec : List α) (sizes : List Nat) (acc : List (List α)) (h : sizes.sum ≤ vec.length) :
